@@ -545,6 +545,17 @@ def run(index: RepoIndex, rep) -> None:
             order.append('lookup')
     want = ['import_if_custom', 'lookup', 'inspect.signature', 'checkraise_kwargs',
             'select_kwargs', 'partial']
+    if 'inspect.signature' not in order:
+        from ..pinned_names import METHODS
+        new_calls = sorted({e.node.func.attr for e in w.events if e.kind == 'call'
+                            and isinstance(e.node.func, ast.Attribute)
+                            and src(e.node.func.value).endswith('_function_registry')
+                            and e.node.func.attr not in METHODS})
+        if new_calls:
+            # the required / optional split moved into a registry method the pinned tree did
+            # not have (possibly memoised): a different mechanism, not a verdict
+            raise AnalysisError(f'factory: parameter names come from the new registry '
+                                f'method(s) {new_calls} (outside the grammar of C17.R4)')
     rep.check(order == want, 'C17.R4', ROLE_FILE['reset'], 'factory', f.node.lineno,
               ' -> '.join(order), f'factory pipeline is {order}, documented {want}',
               'factory pipeline order')
